@@ -414,6 +414,10 @@ func validateMetaTypes(r *Resource, name string, o Object) *StatusErr {
 }
 
 func normalizeMeta(o Object) {
+	// a null top-level status is pruned by the real server (non-nullable field)
+	if v, ok := o["status"]; ok && v == nil {
+		delete(o, "status")
+	}
 	m := meta(o)
 	// empty collections are omitted by the real server's serializer
 	for _, f := range []string{"labels", "annotations"} {
